@@ -87,10 +87,30 @@ Definition has_desc (ks : list kind) : bool := existsb is_desc ks.
 Definition mode2_names (ks : list kind) : list string := if has_desc ks then [] else cnames ks.
 
 (* the template is acceptable for the arrangement: without {description} there are custom captures and a
-   non-empty template; every plain {name} reference of a (non-empty) template is a usable capture *)
-Definition template_okb (ks : list kind) (tmpl : option string) : bool :=
+   non-empty template; a non-empty template is a valid format string (for the library's parser fparse) and
+   every name it uses is a usable capture *)
+Definition template_okb (fparse : string -> option (list (string * string)))
+           (ks : list kind) (tmpl : option string) : bool :=
   ((has_desc ks || (negb (match cnames ks with [] => true | _ => false end) && truthy tmpl))
-   && (negb (truthy tmpl) || forallb (fun r => mem r (mode2_names ks)) (tmpl_refs tmpl)))%bool.
+   && match tmpl with
+      | Some t => is_empty t ||
+                  match template_names fparse t with
+                  | Some names => forallb (fun r => mem r (mode2_names ks)) names
+                  | None => false
+                  end
+      | None => true
+      end)%bool.
+
+(* "the template names column r", in str.format's sense and relative to the library's field parser:
+   r is the argument name (field name up to the first "." or "[") of a replacement field of the
+   template, or of a replacement field nested in one of its format specs ({a:{r}}), at any depth.
+   (Positional / auto-numbered fields count as the names "0", "" ...: an over-approximation.) *)
+Inductive looks_up (fparse : string -> option (list (string * string))) : string -> string -> Prop :=
+| lu_field t fields fld spec :
+    fparse t = Some fields -> In (fld, spec) fields -> looks_up fparse t (arg_name fld)
+| lu_nested t fields fld spec r :
+    fparse t = Some fields -> In (fld, spec) fields -> spec <> "" -> looks_up fparse spec r ->
+    looks_up fparse t r.
 
 Definition default_fmt (f : option string) : string := match f with Some x => x | None => default_date_format end.
 Definition sign_flags (sg : sign) : bool * bool :=
